@@ -1,8 +1,8 @@
 import StorageModel.Query.Compare
 /-
-  The small filter fragment the C02 / C19 checks use (the filter language as a whole belongs to
-  C01): `true`, one comparison of a symbol with a constant of the symbol's own type, `= null`,
-  `!= null`.  Evaluation follows ast/node_expr.go (`Binary*ExprNode.EvalBool`, `IsNilExprNode`)
+  The filter fragment the C02 / C19 checks use (the filter language as a whole belongs to
+  C01): `true`, a comparison of a symbol with a constant of the symbol's own type, `= null`,
+  `!= null`, and their closure under `and`, `or`, `not`.  Evaluation follows ast/node_expr.go (`Binary*ExprNode.EvalBool`, `IsNilExprNode`)
   over an `ast.Symbols` implementation, of which there are two: boltz `rowCursorImpl` and objectz
   `ObjectCursor`.
 -/
@@ -22,6 +22,9 @@ inductive Filter where
   | cmpTime (name : String) (op : CmpOp) (ns : Int)
   | isNull (name : String)
   | notNull (name : String)
+  | and (a b : Filter)
+  | or (a b : Filter)
+  | not (a : Filter)
   deriving Repr, DecidableEq, Inhabited
 
 /-- `ast.Symbols`, the part these filters use -/
@@ -69,6 +72,10 @@ def evalFilter (s : Symbols) : Filter → Bool
   | .cmpTime name op v => cmpNullable (fun a b => decide (a = b)) (fun a b => decide (a < b)) (fun a b => decide (a ≤ b)) op (s.evalDatetime name) v
   | .isNull name => s.isNil name
   | .notNull name => !s.isNil name
+  -- AndExprNode / OrExprNode / NotExprNode (short-circuit evaluation of pure operands)
+  | .and a b => evalFilter s a && evalFilter s b
+  | .or a b => evalFilter s a || evalFilter s b
+  | .not a => !evalFilter s a
 
 /-- boltz `rowCursorImpl` positioned on a row -/
 def boltSymbols (r : Row) : Symbols where
@@ -96,25 +103,62 @@ def satValue (f : Filter) (b : Option Bool) (i : Option Int) (x : Option Nat) (s
   | .cmpTime _ op v => match t with | none => op == .ne | some l => opOn (fun a b => decide (a = b)) (fun a b => decide (a < b)) (fun a b => decide (a ≤ b)) op l v
   | .isNull _ => isNull
   | .notNull _ => !isNull
+  | .and _ _ | .or _ _ | .not _ => false     -- not atoms
 
+/-- the symbol an atom is about -/
 def Filter.symbol : Filter → Option String
-  | .tt => none
+  | .tt | .and _ _ | .or _ _ | .not _ => none
   | .cmpBool n _ _ | .cmpInt n _ _ | .cmpFloat n _ _ | .cmpStr n _ _ | .cmpTime n _ _ | .isNull n | .notNull n => some n
 
-/-- the row satisfies the filter -/
-def sat (r : Row) (f : Filter) : Bool :=
+/-- every symbol the filter mentions -/
+def Filter.symbols : Filter → List String
+  | .and a b | .or a b => a.symbols ++ b.symbols
+  | .not a => a.symbols
+  | .tt => []
+  | .cmpBool n _ _ | .cmpInt n _ _ | .cmpFloat n _ _ | .cmpStr n _ _ | .cmpTime n _ _ | .isNull n | .notNull n => [n]
+
+/-- the row satisfies the atom -/
+def satAtom (r : Row) (f : Filter) : Bool :=
   match f.symbol with
   | none => true
   | some n =>
     let v := evalSym n r
     satValue f (fieldToBool v) (fieldToInt64 v) (fieldToFloat64 v) (fieldToString v) (fieldToDatetime v) (v == .nil)
 
+/-- the row satisfies the filter -/
+def sat (r : Row) : Filter → Bool
+  | .and a b => sat r a && sat r b
+  | .or a b => sat r a || sat r b
+  | .not a => !sat r a
+  | .tt => true
+  | .cmpBool n op v => satAtom r (.cmpBool n op v)
+  | .cmpInt n op v => satAtom r (.cmpInt n op v)
+  | .cmpFloat n op v => satAtom r (.cmpFloat n op v)
+  | .cmpStr n op v => satAtom r (.cmpStr n op v)
+  | .cmpTime n op v => satAtom r (.cmpTime n op v)
+  | .isNull n => satAtom r (.isNull n)
+  | .notNull n => satAtom r (.notNull n)
+
 theorem bolt_eval_sat (r : Row) (f : Filter) : evalFilter (boltSymbols r) f = sat r f := by
-  cases f <;> simp only [evalFilter, sat, Filter.symbol, satValue, boltSymbols, cmpNullable]
-  case cmpBool n op v => cases op <;> rfl
-  case cmpInt n op v => cases fieldToInt64 (evalSym n r) <;> rfl
-  case cmpFloat n op v => cases fieldToFloat64 (evalSym n r) <;> rfl
-  case cmpStr n op v => cases fieldToString (evalSym n r) <;> rfl
-  case cmpTime n op v => cases fieldToDatetime (evalSym n r) <;> rfl
+  induction f with
+  | and a b iha ihb => simp only [evalFilter, sat, iha, ihb]
+  | or a b iha ihb => simp only [evalFilter, sat, iha, ihb]
+  | not a iha => simp only [evalFilter, sat, iha]
+  | tt => rfl
+  | cmpBool n op v => simp only [evalFilter, sat, satAtom, Filter.symbol, satValue, boltSymbols]; cases op <;> rfl
+  | cmpInt n op v =>
+    simp only [evalFilter, sat, satAtom, Filter.symbol, satValue, boltSymbols, cmpNullable]
+    cases fieldToInt64 (evalSym n r) <;> rfl
+  | cmpFloat n op v =>
+    simp only [evalFilter, sat, satAtom, Filter.symbol, satValue, boltSymbols, cmpNullable]
+    cases fieldToFloat64 (evalSym n r) <;> rfl
+  | cmpStr n op v =>
+    simp only [evalFilter, sat, satAtom, Filter.symbol, satValue, boltSymbols, cmpNullable]
+    cases fieldToString (evalSym n r) <;> rfl
+  | cmpTime n op v =>
+    simp only [evalFilter, sat, satAtom, Filter.symbol, satValue, boltSymbols, cmpNullable]
+    cases fieldToDatetime (evalSym n r) <;> rfl
+  | isNull n => simp only [evalFilter, sat, satAtom, Filter.symbol, satValue, boltSymbols]
+  | notNull n => simp only [evalFilter, sat, satAtom, Filter.symbol, satValue, boltSymbols]
 
 end StorageModel.Query
